@@ -17,6 +17,16 @@ for cfg in ("default", "nan_boxing", "gc_stress"):
             e = sigs.setdefault(fn.path, [facts.fn_sig(fn), []])
             e[1].append(cfg)
 head = subprocess.run(["git", "-C", "/repo", "rev-parse", "--short", "HEAD"], capture_output=True, text=True).stdout.strip()
+# small bool accessors (`fn is_sync(&self) -> bool { self.kind == Kind::Sync }`): what they return, so that a guard that
+# spells the body out at the use site is still recognised as that accessor (sem.canonical_guard)
+from lyverif import sem
+accessors = []
+F0 = facts.load("default")
+for fn in F0.all_fns():
+    if fn.crate in ("laythe_core", "laythe_vm", "laythe_lib") and "::test" not in fn.path:
+        tm = sem.accessor_template(fn)
+        if tm is not None:
+            accessors.append([fn.name, fn.path, tm])
 S = facts.load("syn")
-json.dump({"repo_head": head, "fns": sorted(names), "sigs": sigs, "syn_fns": sorted(facts.syn_fn_keys(S)), "syn_sigs": facts.syn_fn_sigs(S)}, open("/verif/lyverif/pinned_fns.json", "w"), indent=0)
+json.dump({"repo_head": head, "fns": sorted(names), "sigs": sigs, "syn_fns": sorted(facts.syn_fn_keys(S)), "syn_sigs": facts.syn_fn_sigs(S), "accessors": accessors}, open("/verif/lyverif/pinned_fns.json", "w"), indent=0)
 print("pinned", len(names), "functions at", head)
